@@ -812,7 +812,7 @@ impl Check for ReadCheck {
             "C06" => "everything above plus refusing/limited policies, injected source errors on reads and seeks at random call indices, SetPolicy mid-stream, arbitrary continuation after errors and after end, iteration of sets whose fill failed; panic (catch_unwind), per-operation seam-step budget, membership and order of every record handed out; readers opened by path (regular file or FIFO; empty and 1..3-byte files)",
             "C13" => "accessor relations evaluated on every record handed out (next, owned, record sets) in histories over wild-byte inputs",
             "C17" => "FASTA: 0..40 leading blank lines then a non-'>' line (also one starting with CR); FASTQ: valid prefix of 0..8 records plus one defect; one run in six reaches the defect after a refused growth and set_policy(Std); one FASTQ run in eight reads 0..n items, seeks back to a record position and reaches the error (again) from there, a third of those with a source whose every seek call fails (the failed seek changes nothing, the reader meets the defect from where it was); capacity placed so the defect lies -3..+3 around a buffer end (or drawn freely); error fields compared with the model, message checked for line, found byte (escape_default), lengths and id; ids longer than 4 KiB and 64 KiB; 1 in 3000: one giant defective group beyond 64 KiB / 1 MiB / 8 MiB",
-            "C19" => "serde_json round trip of every owned record and of every record set after each set read - freshly filled, or returned from a failed read (refusing policy / injected I/O error in one run of five) or from an end-of-input read; slots are reused, so stale offsets beyond len() occur; a KiB-buffer profile puts sets far from buffer offset 0 - through four formats: JSON text, serde_json::Value, CBOR (ciborium: length-prefixed sequences/maps, native byte strings) and a positional format of our own without field names (posfmt.rs, bincode/postcard style, not self-describing)",
+            "C19" => "serde_json round trip of every owned record and of every record set after each set read - freshly filled, or returned from a failed read (refusing policy / injected I/O error in one run of five) or from an end-of-input read; slots are reused, so stale offsets beyond len() occur; a KiB-buffer profile puts sets far from buffer offset 0 - through four formats: JSON text, serde_json::Value, CBOR (ciborium: length-prefixed sequences/maps, native byte strings) and a positional format of our own without field names (posfmt.rs, bincode/postcard style, not self-describing); after all routes of a record set it is serialised five more times into a sink that refuses a write call in the middle of the value (results discarded): what a failed serialisation leaves behind on the thread meets the routes of the next set",
             "C20" => "seeded histories of next / next_back / nth(k) / nth_back(k) steps on seq_lines() of every FASTA record handed out against a VecDeque model with len()/size_hint() checked before every step, nth/skip overshoot on SeqLines and both RecordSetIters, adaptors enumerate().rev(), enumerate from both ends, skip().rev(), zip().rev(), collect; RecordSetIter size hints and fusedness; RecordsIter/RecordsIntoIter stay at end; in one scenario in three a second reader's records() / into_records() is taken through a seeded plan of next / nth(k) / skip(k) / step_by(k) steps with size_hint() before each and compared item by item with a plain drain of a third reader (skipped items count whatever they are, hints bracket what is left); internal iteration (count, last, for_each/fold, rfold, rev().fold) of fresh and partly consumed iterators must cover exactly what is left; one run in eight reads a growing input (one read returns Ok(0) before the data ends): once the into_records() iterator has reported the end it keeps reporting the end (rule end_not_sticky, model-independent; with ordinary sources the rule covers every read operation)",
             _ => "",
         };
